@@ -566,7 +566,7 @@ static void run_plan(const world_t *w, const plan_t *p, long long index, int tra
         w->exec(p);
     }
     if (g_reused != reu0) probe_dyn("freed_block_handed_out_again");
-    if (g_far_placed - far0 >= 2) probe_dyn(p->cfg[CF_FAR] == 1 ? "elements_2^32_bytes_apart" : "elements_3x2^31_bytes_apart"); }
+    if (g_far_placed - far0 >= 2) probe_dyn(p->cfg[CF_FAR] == 1 ? "elements_2^32_bytes_apart" : p->cfg[CF_FAR] == 3 ? "nodes_at_multiples_of_2^32" : "elements_3x2^31_bytes_apart"); }
     g_inlib = 0; g_trap_armed = 0;
     g_atomic_hook = NULL; g_yield_hook = NULL; g_sched_point = NULL; g_free_hook = NULL; g_fiber_escape = NULL; g_abort_in_fiber = NULL;
     g_preempt_hook = NULL; g_rand_hook = NULL;
